@@ -147,6 +147,44 @@ def long_match_probe(run, key="scan/LONGMATCH/-"):
             run.failure(key, f"300-instruction sleds at records {starts} of a {n}-instruction listing, rule nop{{250,300}}: all-matches gives {len(hits)} hit(s) of {[h.count('|') for h in hits]} records, first-match {[h.count('|') for h in first]} (found={found1}), addresses {addrs}; expected one whole sled per start", {"kind": "scan_long", "planted": starts, "n": n})
 
 
+def scan_variants_probe(run, key="scan/VARIANTS"):
+    """Concrete scans (real engine): a rule with register captures in all-matches mode, the same scan with the library logger at
+    DEBUG level, and a dense scan over a stream larger than 1 MiB (a finding at every instruction)."""
+    import logging
+
+    L = [("1000", "push", ["%rbp"]), ("1001", "xor", ["%eax", "%eax"]), ("1003", "xor", ["%ebx", "%ebx"]), ("1005", "mov", ["%rsp", "%rbp"]), ("1008", "xor", ["%ecx", "%eax"]), ("100a", "xor", ["%edx", "%edx"]), ("100c", "ret", [])]
+    rx_cap = jasmapi.compile_rule({"pattern": [{"xor": ["&genreg.32", "&genreg.32"]}]})
+    want = ["1001", "1003", "100a"]
+    lg = logging.getLogger("jasm")
+    names = [n for n in logging.root.manager.loggerDict if n.startswith("jasm")] + ["jasm"]
+    for level in (None, logging.DEBUG):
+        saved = {n: logging.getLogger(n).level for n in names}
+        saved_disable = logging.root.manager.disable
+        try:
+            if level is not None:
+                logging.disable(logging.NOTSET)
+                for n in names:
+                    logging.getLogger(n).setLevel(level)
+            _, hits, _ = jasmapi.run_consumer(rx_cap, L, all_matches=True, only_addr=True)
+            _, full, _ = jasmapi.run_consumer(rx_cap, L, all_matches=True, only_addr=False)
+            _, first, _ = jasmapi.run_consumer(rx_cap, L, all_matches=False, only_addr=True)
+        finally:
+            logging.disable(saved_disable)
+            for n, v in saved.items():
+                logging.getLogger(n).setLevel(v)
+        run.count("traces_validated_against_impl")
+        if hits != want or first != want[:1] or [h.split("::")[0] for h in full] != want:
+            run.failure(f"{key}/captures" + ("_debug_level" if level else ""), f"rule xor &genreg.32,&genreg.32 (log level {'DEBUG' if level else 'default'}): all-matches {hits}, full texts start {[h[:12] for h in full]}, first-match {first}; expected {want}", {"kind": "scan_long", "planted": want, "n": len(L)})
+    n = 45000
+    Ld = [(format(0x400000 + 9 * i, "x"), "movq", ["%rsi", "[%rsp+0x1000]"]) for i in range(n)]
+    rd = jasmapi.compile_rule({"pattern": [{"movq": ["rsi"]}]})
+    _, hits, stream = jasmapi.run_consumer(rd, Ld, all_matches=True, only_addr=True)
+    run.count("traces_validated_against_impl")
+    if hits != [a for a, _, _ in Ld]:
+        extra = [h for h in hits if h not in {a for a, _, _ in Ld}][:3]
+        run.failure(f"{key}/dense", f"dense scan of {n} instructions ({len(stream)} characters): {len(hits)} findings, expected {n}; findings that are no address of the listing: {extra}", {"kind": "scan_long", "planted": [], "n": n})
+
+
 def main():
     run = Run("C11", "model_checking", "RX+CH")
     # AEM at offset 0 is what makes "the first reported match is the leftmost one" a statement about the very first
@@ -163,6 +201,7 @@ def main():
     lemmas.run_templates(run, tpls)
     scan_validation(run, T.gamma11(tier(), seed()))
     long_match_probe(run)
+    scan_variants_probe(run)
     long_listing_probe(run)
     hs = [h for h in c12.harnesses(tier()) if "/modes/" in h.name]
     for h in hs:
